@@ -987,34 +987,23 @@ type sbData struct {
 	values  []byte
 }
 
-// returns true if we set Block to blank 0 or some solid label
+// returns true if we set Block to blank 0 or some solid label.  A nil octant is unchanged,
+// i.e., keeps whatever this block already stores for it (see DownresSlow), so the block can only
+// be declared solid if all eight octants are given and are solid with the same label.
 func (b *Block) setBlank(octants [8]*Block) bool {
-	var ok bool
 	var lbl uint64
-	if octants[0] == nil {
-		ok = true // nil octants are solid label 0 block
-	} else if len(octants[0].Labels) == 1 {
-		lbl = octants[0].Labels[0]
-		ok = true
-	}
-	if ok {
-		for i := 1; i < 8; i++ {
-			if octants[i] == nil {
-				if lbl != 0 {
-					ok = false
-					break
-				}
-			} else if len(octants[i].Labels) != 1 || lbl != octants[i].Labels[0] {
-				ok = false
-				break
-			}
+	for i, octant := range octants {
+		if octant == nil || len(octant.Labels) != 1 {
+			return false
 		}
-		if ok {
-			*b = *MakeSolidBlock(lbl, b.Size)
-			return true
+		if i == 0 {
+			lbl = octant.Labels[0]
+		} else if octant.Labels[0] != lbl {
+			return false
 		}
 	}
-	return false
+	*b = *MakeSolidBlock(lbl, b.Size)
+	return true
 }
 
 // DownresSlow is same as Downres() but uses simpler and more memory/compute-intensive
